@@ -108,6 +108,83 @@ impl StepOracle for C02Oracle {
     }
 }
 
+/// Routed swaps: every swap a pair executes inside a router transaction settles exactly as its own event
+/// reports - the pair's reserve of the offered asset rises by the offered amount and the reserve of the
+/// other asset falls by the reported return, summed over the pair's swaps of this transaction - and no
+/// pair without a swap event moves at all.
+#[derive(Default)]
+pub struct C02RouteOracle {
+    nontrivial: u64,
+}
+
+impl StepOracle for C02RouteOracle {
+    fn on_step(&mut self, cx: &mut StepCtx, classes: &mut Vec<&'static str>) -> Verdict {
+        let w = &*cx.world;
+        let (ops, extras) = match cx.intent {
+            Intent::Route { ops, extras, .. } => (ops, extras),
+            _ => return Verdict::Pass,
+        };
+        if !cx.rec.outcome.is_ok() {
+            classes.push("s:route-rejected");
+            if !cx.rec.state_unchanged() {
+                return Verdict::Fail(format!("step {}: a rejected route changed chain state", cx.index));
+            }
+            return Verdict::Pass;
+        }
+        classes.push("s:route-settled");
+        classes.push(if extras.is_empty() { "f:input-only" } else { "f:extra-coin-attached" });
+        if snap_holds_any(w, &cx.rec.before, ops) {
+            classes.push("f:router-held-route-assets");
+        }
+        let mut swaps = 0;
+        for (p, pr) in w.pairs.iter().enumerate() {
+            let raw = cx.rec.outcome.events(pr.addr.as_str(), "swap").len();
+            let evs = crate::props::c03::swap_events(w, cx.rec, cx.intent, p);
+            if raw != evs.len() {
+                classes.push("x:sides-not-reconstructible");
+                continue;
+            }
+            swaps += raw;
+            let mut want = [0i128; 2];
+            for e in &evs {
+                want[e.side] += e.a as i128;
+                want[1 - e.side] -= e.ret as i128;
+            }
+            for k in 0..2 {
+                let got = cx.rec.delta(&pr.infos[k], pr.addr.as_str());
+                if got != want[k] {
+                    return Verdict::Fail(format!(
+                        "step {}: routed swaps on pair{} report {:?} (side, offer, return) so its reserve of {} must change by {}, but it changed by {}",
+                        cx.index, p, evs.iter().map(|e| (e.side, e.a, e.ret)).collect::<Vec<_>>(), pr.infos[k], want[k], got
+                    ));
+                }
+            }
+        }
+        if swaps >= 2 {
+            classes.push("s:multi-hop");
+        }
+        if swaps >= 1 {
+            self.nontrivial += 1;
+        }
+        Verdict::Pass
+    }
+    fn nontrivial(&self) -> bool {
+        self.nontrivial > 0
+    }
+}
+
+fn snap_holds_any(w: &World, snap: &Snapshot, ops: &[haloswap::router::SwapOperation]) -> bool {
+    ops.iter().any(|haloswap::router::SwapOperation::HaloSwap { offer_asset_info, ask_asset_info }| {
+        snap_balance(snap, offer_asset_info, w.router.as_str()) > 0 || snap_balance(snap, ask_asset_info, w.router.as_str()) > 0
+    })
+}
+
+fn run_routed(t: &Tape, want_desc: bool) -> CaseResult {
+    let mut o = C02RouteOracle::default();
+    let h = run_history(t, &ROUTER, 15, &mut o, want_desc);
+    hist_case(t, h)
+}
+
 fn run(t: &Tape, want_desc: bool) -> CaseResult {
     let mut o = C02Oracle::default();
     let h = run_history(t, &SETTLE, 14, &mut o, want_desc);
@@ -130,10 +207,21 @@ pub fn suites() -> Vec<Suite> {
             "x:hook named=delivered amount=", "x:hook named=delivered amount!=", "x:hook named=other-pair-asset", "x:hook named=outsider",
             "k:native/native", "k:native/cw20", "k:cw20/cw20", "s:settled", "s:rejected", "s:third-party-receiver",
         ],
+    }, Suite {
+        name: "routed_settlement",
+        about: "swaps reached through the router (1..4 hops, both entries, stray router balances, a further coin attached to the entry call): per pair, reserve movements equal the pair's own swap reports",
+        head_len: HEAD_LEN,
+        op_len: OP_LEN,
+        max_ops: 24,
+        quick_cases: 10_000,
+        thorough_cases: 150_000,
+        run: run_routed,
+        direct: Some(direct_with::<C02RouteOracle>),
+        must_hit: &["s:route-settled", "s:route-rejected", "s:multi-hop", "f:extra-coin-attached", "f:router-held-route-assets"],
     }]
 }
 
-pub const RULE: &str = "case = world + history (profile 'settlement': swap-heavy, 9/16 of swap messages adversarial: named asset = other pair asset / outsider asset, named amount = delivered±1 / 0 / random, 5/16 funds games: less / more / absent / extra coin / other pair denom attached, receivers none / actor / bystander / fresh); every swap attempt is judged: success => response attributes, 'delivered == named' and the complete ledger diff equal the reference settlement; failure => chain state byte-identical; non-trivial = history with a settled swap or a rejected swap whose named asset or amount differs from what was delivered; distinct = hash of the tape";
+pub const RULE: &str = "suite settlement: case = world + history (profile 'settlement': swap-heavy, 9/16 of swap messages adversarial: named asset = other pair asset / outsider asset, named amount = delivered±1 / 0 / random, 5/16 funds games: less / more / absent / extra coin / other pair denom attached, receivers none / actor / bystander / fresh); every swap attempt is judged: success => response attributes, 'delivered == named' and the complete ledger diff equal the reference settlement; failure => chain state byte-identical; non-trivial = history with a settled swap or a rejected swap whose named asset or amount differs from what was delivered; distinct = hash of the tape. suite routed_settlement: case = router world + history (profile 'router': 14/36 routes of 1..4 hops, donations to the router, 2/16 of native-entry routes attach a further coin); every successful route is judged per pair against the pair's own swap events; non-trivial = history with a settled routed swap";
 pub const ASSUMPTIONS: &[&str] = &[
     "cw-multi-test chain model; cw20-base tokens; receivers are user accounts (actors, bystanders, fresh addresses)",
     "coins attached besides the offer are accounted as the trader's donation to the pair",
